@@ -1011,18 +1011,42 @@ mod tap {
         // negotiated keys, read from the sessions setup_srtp / setup_sdes installed
         let k1 = t1.verif_lc_srtp_keying();
         let k2 = t2.verif_lc_srtp_keying();
+        // key installation (setup_srtp) run on the live DTLS association for every use_srtp outcome, both roles: the
+        // installed profile must be an encrypting one, keys must exist, and the client/server split must be mirrored
+        // (run on peer 2: the probe re-points that peer's transceivers at a scratch transport, so what peer 2 sends
+        // afterwards — its own BYE — is keyed with scratch keys and is left out of the wire check; peer 1 is untouched)
+        let mut fails = vec![];
+        let probe_from = relay.log.lock().len();
+        if name == "webrtc" {
+            for opt in [None, Some(1u16), Some(2), Some(7), Some(0x9999)] {
+                let c = pc2.verif_lc_setup_srtp(true, opt);
+                let sv = pc2.verif_lc_setup_srtp(false, opt);
+                for (role, k) in [("client", &c), ("server", &sv)] {
+                    match k {
+                        None => fails.push((format!("keys:no-session-installed:{role}:{opt:?}"), "setup_srtp installed no session".into())),
+                        Some(k) => {
+                            if !matches!(k.0, SrtpProfile::Aes128Sha1_80 | SrtpProfile::Aes128Sha1_32 | SrtpProfile::AeadAes128Gcm) {
+                                fails.push((format!("keys:non-encrypting-profile-installed:{opt:?}"), format!("{role}: profile {:?}", k.0)));
+                            }
+                            if k.1.len() < 16 || k.3.len() < 16 || k.1 == k.3 { fails.push((format!("keys:unusable-or-unsplit-keys:{role}:{opt:?}"), format!("tx {} bytes, rx {} bytes", k.1.len(), k.3.len()))); }
+                        }
+                    }
+                }
+                if let (Some(c), Some(sv)) = (&c, &sv) { if c.1 != sv.3 || c.3 != sv.1 || c.2 != sv.4 || c.4 != sv.2 { fails.push((format!("keys:client-server-split-not-mirrored:{opt:?}"), "client tx keys are not the server's rx keys".into())); } }
+            }
+        }
         pc1.close();
         pc2.close();
         tokio::time::sleep(std::time::Duration::from_millis(150)).await;
         reader.abort();
 
-        let mut fails = vec![];
         let mut kinds = std::collections::BTreeMap::new();
         let profile = k1.as_ref().map(|k| format!("{:?}", k.0)).unwrap_or("none".into());
         let mut auth = [k1.map(|k| WireAuth::new(k.0, k.1, k.2)), k2.map(|k| WireAuth::new(k.0, k.1, k.2))];
         let log = relay.log.lock().clone();
-        for (dir, b) in &log {
+        for (idx, (dir, b)) in log.iter().enumerate() {
             if b.len() < 2 || !(128..192).contains(&b[0]) { continue; } // STUN / DTLS
+            if name == "webrtc" && *dir == 2 && idx >= probe_from { continue; } // peer 2 after the setup_srtp probe (see above)
             let kind = kind_of(b);
             *kinds.entry(format!("dir{dir}:{kind}")).or_insert(0) += 1;
             if contains(b, MARKER) { fails.push((format!("wire:payload-visible-in-clear:{name}:{kind}"), format!("direction {dir}, {} bytes", b.len()))); }
